@@ -326,9 +326,8 @@ def run(tier='quick', seed=0):
     tasks = [(n, cn, t, kb) for n, (cn, t) in sorted(table.items())]
     ctx = mp.get_context('fork')
     all_obs = []
-    with ctx.Pool(processes=min(16, os.cpu_count() or 4), maxtasksperchild=8) as pool:
-        for obs in pool.imap_unordered(task, tasks, chunksize=2):
-            all_obs.extend(obs)
+    from ..par import collect
+    all_obs.extend(collect(task, tasks, 6, 900, lambda t, why: dict(oid=f'C14/worker/{t[0]}', status='undecided', detail=why, level='finite-complete', paths=0, name=t[0], cname=t[1], kind='worker')))
     viol = sorted((o for o in all_obs if o['status'] == 'violated'), key=lambda o: o['oid'])
     srcs = []
     for o in viol[:report.REPLAY_CAP]:
